@@ -33,7 +33,7 @@ Proof.
       destruct (alookup k (r_chans r)) as [rc|] eqn:Er; [contradiction|].
       apply sim_gc; try apply S; try assumption.
       - apply rwf_set_chans; [apply ksorted_sm_del, (wf_chans _ W)| |exact W].
-        intros k0 c0. rewrite alookup_sm_del by apply (wf_chans _ W). destruct (streqb k0 k); [discriminate|apply (wf_members _ W)].
+        intros k0 c0. rewrite alookup_sm_del by apply (wf_chans _ W). destruct (streqb k0 k); [discriminate|apply (wf_cwf _ W)].
       - intros k0. rproj. rewrite alookup_sm_del by apply (wf_chans _ W). destruct (streqb k0 k) eqn:E; [|apply S].
         apply streqb_eq in E. subst k0. rewrite Ec. exact Logic.I.
       - intros k0 u Hu. rproj. rewrite (sim_users _ _ S), Hu. reflexivity. }
@@ -52,7 +52,7 @@ Proof.
       apply streqb_neq in Hk'. rewrite Hk'. reflexivity. }
     apply sim_gc; try apply S; try assumption.
     + apply rwf_set_chans; [apply ksorted_sm_del, (wf_chans _ W)| |exact W].
-      intros k0 c0. rewrite alookup_sm_del by apply (wf_chans _ W). destruct (streqb k0 k); [discriminate|apply (wf_members _ W)].
+      intros k0 c0. rewrite alookup_sm_del by apply (wf_chans _ W). destruct (streqb k0 k); [discriminate|apply (wf_cwf _ W)].
     + intros k0. rproj. rewrite alookup_aremove, alookup_sm_del by apply (wf_chans _ W).
       destruct (streqb k0 k) eqn:E; [exact Logic.I|]. apply streqb_neq in E.
       pose proof (sim_chans _ _ S k0) as H. unfold opt_rel in *.
@@ -106,7 +106,7 @@ Proof.
       unfold u', user_delete_channel. cbn [u_perms u_set_perms u_set_chans]. rewrite alookup_aremove. fold kc. destruct (streqb k kc) eqn:Ek; [|reflexivity].
       apply streqb_eq in Ek. exfalso. apply Hkn. split; [exact Ek|reflexivity]. }
     apply sim_gc; try assumption.
-    + apply rwf_upd_chan; [|exact W]. intros c0 H0. simpl. apply ksorted_sm_del, H0.
+    + apply rwf_upd_chan; [|exact W]. intros c0 H0. apply cwf_set_members; [exact H0|]. apply ksorted_sm_del, H0.
     + rproj. rewrite N. apply S.
     + rproj. rewrite Id. apply S.
     + rproj. rewrite Ho. apply S.
@@ -140,7 +140,7 @@ Lemma delete_user_all_sim nk : exists s', delete_user s [] nk = Ok s' /\ Fresh s
 Proof.
   unfold delete_user, lookup_user. set (kn := fold nk).
   assert (Wq : RWf (ref_quit r nk)).
-  { unfold ref_quit. apply (rwf_map_chans _ (drop_member (key nk))); [|exact W]. intros c Hc. simpl. apply ksorted_sm_del, Hc. }
+  { unfold ref_quit. apply (rwf_map_chans _ (drop_member (key nk))); [|exact W]. intros c Hc. apply cwf_set_members; [exact Hc|]. apply ksorted_sm_del, Hc. }
   assert (QC : forall k, alookup k (r_chans (ref_quit r nk)) = option_map (drop_member kn) (alookup k (r_chans r))).
   { intros k. unfold ref_quit. rproj. rewrite alookup_sm_map. reflexivity. }
   destruct (alookup kn (st_users s)) as [u|] eqn:Eu.
